@@ -271,6 +271,18 @@ fn op_json(o: &Op) -> J {
     J::Obj(m)
 }
 
+pub fn http_spelling(scheme_name: &str, base: &str) -> String {
+    let letters: Vec<char> = scheme_name.chars().filter(|c| c.is_ascii_alphabetic()).collect();
+    if !letters.is_empty() && letters.iter().all(|c| c.is_ascii_uppercase()) {
+        base.to_uppercase()
+    } else if letters.first().map(|c| c.is_ascii_uppercase()).unwrap_or(false) {
+        let mut c = base.chars();
+        c.next().map(|f| f.to_ascii_uppercase().to_string() + c.as_str()).unwrap_or_default()
+    } else {
+        base.to_string()
+    }
+}
+
 pub fn spec_json(s: &Spec) -> J {
     let mut paths: Vec<(String, J)> = vec![];
     for pi in &s.paths {
@@ -296,8 +308,10 @@ pub fn spec_json(s: &Spec) -> J {
                 };
                 obj(vec![("type", js("apiKey")), ("in", js(l)), ("name", js(name))])
             }
-            Scheme::HttpBearer => obj(vec![("type", js("http")), ("scheme", js("bearer"))]),
-            Scheme::HttpBasic => obj(vec![("type", js("http")), ("scheme", js("basic"))]),
+            // the auth-scheme token is case-insensitive (RFC 7235) and the IANA registry spells it `Basic` / `Bearer`:
+            // the spelling follows the capitalisation of the scheme's own name, so that all three forms occur
+            Scheme::HttpBearer => obj(vec![("type", js("http")), ("scheme", js(&http_spelling(n, "bearer")))]),
+            Scheme::HttpBasic => obj(vec![("type", js("http")), ("scheme", js(&http_spelling(n, "basic")))]),
             Scheme::OAuth2 { auth_url, token_url, refresh_url, scopes } => {
                 let mut flow: Vec<(String, J)> = vec![("authorizationUrl".into(), js(auth_url)), ("tokenUrl".into(), js(token_url))];
                 if let Some(r) = refresh_url {
